@@ -6,7 +6,7 @@ import ast
 from sa.astx import call_attr, call_name, dotted, src, walk_local
 from sa.selftest import Mutant, Silent
 from sa.source import AnalysisError, methods, mro_lookup
-from sa.props._lib_j import body_always_entered, run_sections, asserted_eq, asserted_in, edge_asserts, local_defs, node_calls, normal_exits, params
+from sa.props._lib_j import MiniStop, body_always_entered, leaf_values, mini_call, normalise, rsrc, run_sections, asserted_eq, asserted_in, edge_asserts, local_defs, node_calls, normal_exits, params
 
 PROPERTY = "C54"
 FTPM = "protocols/ftp.py"
@@ -29,7 +29,9 @@ EXPLANATION = (
     "Not decided: symbolic links (excluded by the statement), FilePath.child itself (C26), the realm's choice of root. "
     "Every anchor function is also checked to be entered on every call (no memoising/wrapping decorator, duplicate definition or rebinding). "
 )
-ASSUMPTIONS = ["the shell root exists while the shell is in use (makedirs creates missing ancestors only below it)", "FilePath.child rejects anything that is not a direct child (property C26)", "IFTPShell implementations other than the two in ftp.py are out of scope"]
+ASSUMPTIONS = [
+    "the rules read a normalised view of the anchored modules (sa/props/_lib_j.Normaliser): private helpers expanded at their call sites, module constants and single-assignment pure temporaries substituted, loops over constant tuples unrolled; evaluation order inside one statement is not modelled",
+   "the shell root exists while the shell is in use (makedirs creates missing ancestors only below it)", "FilePath.child rejects anything that is not a direct child (property C26)", "IFTPShell implementations other than the two in ftp.py are out of scope"]
 
 FP_METHODS = {"open", "listdir", "remove", "makedirs", "createDirectory", "isdir", "isfile", "exists", "islink", "restat", "getsize", "child", "children",
               "walk", "moveTo", "copyTo", "setContent", "getContent", "touch", "chmod", "getPermissions", "getModificationTime", "getNumberOfHardLinks",
@@ -105,6 +107,36 @@ def _s_protocol(ctx, S):
     ctx.floor("protocol/shell-gets-normalised-segments", nsites, 11, "self.shell.<op>(path) call sites")
 
 
+def _param_from_tosegments(cls, meth, pname) -> bool:
+    """``pname`` is a parameter of the private method ``meth``: every reference to the method in the class hands in a toSegments() result for it -
+    directly (``self._m(x, segs)``) or as a Deferred callback with extra arguments (``d.addCallback(self._m, segs)``: result first, then the extras)."""
+    ps = params(meth)[1:]
+    if pname not in ps:
+        return False
+    idx = ps.index(pname)
+    refs = 0
+    for m2 in methods(cls).values():
+        for n in ast.walk(m2):
+            if isinstance(n, ast.Attribute) and src(n) == "self." + meth.name and isinstance(n.ctx, ast.Load):
+                refs += 1
+                par = getattr(n, "_parent", None)
+                arg = None
+                if isinstance(par, ast.Call) and par.func is n:
+                    arg = par.args[idx] if idx < len(par.args) else next((k.value for k in par.keywords if k.arg == pname), None)
+                elif isinstance(par, ast.Call) and call_attr(par) in ("addCallback", "addBoth") and par.args and par.args[0] is n and idx >= 1:
+                    arg = par.args[idx] if idx < len(par.args) else None
+                if arg is None:
+                    return False
+                if _is_tosegments(arg):
+                    continue
+                if not isinstance(arg, ast.Name):
+                    return False
+                fn, ds = _defs_in_scope(arg.id, par)
+                if not (ds and all(d is not None and d != "<param>" and _is_tosegments(d) for d in ds)):
+                    return False
+    return refs > 0
+
+
 def _s_cwd(ctx, S):
     cls = ctx.cls(FTPM, "FTP")
     nwd = 0
@@ -120,6 +152,8 @@ def _s_cwd(ctx, S):
                         if not ok and isinstance(n, ast.Assign) and isinstance(v, ast.Name):
                             fn, ds = _defs_in_scope(v.id, n)
                             ok = bool(ds) and all(d is not None and d != "<param>" and _is_tosegments(d) for d in ds)
+                            if not ok and ds == ["<param>"] and fn is m and mname.startswith("_") and not mname.startswith("__"):
+                                ok = _param_from_tosegments(cls, m, v.id)
                         ctx.check(ok, "protocol/working-directory-normalised", ctx.construct(f"{QF}.FTP.{mname}", n),
                                   "self.workingDirectory is assigned something other than [] or a toSegments() result: later relative paths start outside "
                                   "the normalised tree")
@@ -148,8 +182,10 @@ def _s_tosegments(ctx, S):
               f"toSegments does not return the normalised stack `{segs}` on every path: "
               f"{sorted({src(g.node(x).ast.value) if isinstance(g.node(x).ast, ast.Return) else '<falls off>' for x in rets})}")
     ds = local_defs(f, track_mutation=False).get(segs, [])
-    okd = bool(ds) and all(d is not None and ((isinstance(d, ast.List) and not d.elts) or src(d) in (f"{cwd}[:]", f"list({cwd})", f"{cwd}.copy()", f"{cwd}[0:]")) for d in ds)
-    ctx.check(okd, "normalise/starts-from-root-or-cwd", q, f"the segment stack does not start as [] or a copy of cwd: {[src(d) for d in ds if d is not None]}")
+    starts = [v for d in ds if d is not None for v, _, _ in leaf_values(f, d)]
+    okd = bool(ds) and all(d is not None for d in ds) and \
+        all((isinstance(d, ast.List) and not d.elts) or src(d) in (f"{cwd}[:]", f"list({cwd})", f"{cwd}.copy()", f"{cwd}[0:]") for d in starts)
+    ctx.check(okd, "normalise/starts-from-root-or-cwd", q, f"the segment stack does not start as [] or a copy of cwd: {[src(d) for d in starts]}")
     loops = [n for n in g.nodes if n.kind == "for" and g.reachable(n.id)]
     ctx.need(len(loops) == 1, "single loop in toSegments")
     lp = loops[0]
@@ -213,31 +249,59 @@ def _s_invalid_path(ctx, S):
 def _s_path(ctx, S):
     # ================= (2) shells ===============================================================================
     fpth = ctx.func(FTPM, "FTPAnonymousShell._path")
-    okp = len(fpth.body) >= 1 and isinstance(fpth.body[-1], ast.Return) and src(fpth.body[-1].value) == f"self.filesystemRoot.descendant({params(fpth)[1]})" and \
-        not [s for s in fpth.body[:-1] if not (isinstance(s, ast.Expr) and isinstance(s.value, ast.Constant))]
+    rets_ = [n for n in walk_local(fpth) if isinstance(n, ast.Return)]
+    okp = len(rets_) == 1 and fpth.body[-1] is rets_[0] and rets_[0].value is not None and \
+        rsrc(rets_[0].value, local_defs(fpth, track_mutation=False)) == f"self.filesystemRoot.descendant({params(fpth)[1]})" and \
+        all((isinstance(s, ast.Expr) and isinstance(s.value, ast.Constant)) or (isinstance(s, ast.Assign) and all(isinstance(t, ast.Name) for t in s.targets)
+                                                                                 and not any(isinstance(x, ast.Call) for x in ast.walk(s.value)))
+            for s in fpth.body[:-1])
     ctx.check(okp, "shell/_path-is-descendant-of-root", QF + ".FTPAnonymousShell._path",
               "_path is not `return self.filesystemRoot.descendant(segments)`: segments are joined to the root without FilePath.child's containment check")
 
 
+class _SymPath:
+    """symbolic FilePath for the evaluation of descendant(): remembers which children were taken through child()"""
+    _mini_symbolic = True
+
+    def __init__(self, trail=(), via=()):
+        self.trail, self.via = tuple(trail), tuple(via)
+
+    def child(self, name):
+        return _SymPath(self.trail + (name,), self.via + ("child",))
+
+    def __getattr__(self, attr):
+        if attr.startswith("_mini") or attr in ("trail", "via"):
+            raise AttributeError(attr)
+
+        def other(*a, **k):
+            return _SymPath(self.trail + (f"<{attr}>",) + tuple(map(str, a)), self.via + (attr,))
+        return other
+
+
 def _s_descendant(ctx, S):
+    """descendant() is evaluated, not shape-matched: on a symbolic path and segment lists of length 0..3 the result must be the path reached by
+    one child() per segment, in order, starting from self - and by nothing else (no preauthChild / join / skipping)."""
     desc = [x for x in ctx.mod(FPM).find_all("AbstractFilePath.descendant") if isinstance(x, ast.FunctionDef)]
     ctx.need(desc, "AbstractFilePath.descendant")
     fd = desc[0]
-    gd = ctx.cfg(fd)
-    seg_p = params(fd)[1]
-    lps = [n for n in gd.nodes if n.kind == "for" and gd.reachable(n.id)]
-    okd = len(lps) == 1 and src(lps[0].ast.iter) == seg_p
-    if okd:
-        lv = src(lps[0].ast.target)
-        body = lps[0].ast.body
-        okd = len(body) == 1 and isinstance(body[0], ast.Assign) and isinstance(body[0].value, ast.Call) and call_attr(body[0].value) == "child" and \
-            src(body[0].value.func.value) == src(body[0].targets[0]) and [src(a) for a in body[0].value.args] == [lv]
-        acc = src(body[0].targets[0]) if okd else None
-        okd = okd and all(isinstance(gd.node(x).ast, ast.Return) and src(gd.node(x).ast.value) == acc for x in normal_exits(gd))
-        init = [d for d in local_defs(fd, track_mutation=False).get(acc, []) if d is not None and not (isinstance(d, ast.Call) and call_attr(d) == "child")] if okd else []
-        okd = okd and [src(d) for d in init] == ["self"]
-    ctx.check(okd, "shell/descendant-is-child-per-segment", "twisted.python.filepath.AbstractFilePath.descendant",
-              "descendant() does not apply child() once per segment starting from self (a segment bypasses the containment check)")
+    ps = params(fd)
+    ctx.need(len(ps) == 2, "descendant(self, segments)")
+    bad = None
+    try:
+        for segs in ([], ["a"], ["a", "b"], ["x", "..", "y"]):
+            root = _SymPath()
+            for container in (list(segs), tuple(segs)):
+                r = mini_call(fd, {ps[0]: root, ps[1]: container})
+                ok = isinstance(r, _SymPath) and r.trail == tuple(segs) and set(r.via) <= {"child"} and (segs or r is root)
+                if not ok and bad is None:
+                    bad = (segs, getattr(r, "trail", r), getattr(r, "via", ()))
+    except MiniStop as e:
+        raise AnalysisError(f"descendant() not evaluable: {e}")
+    except Exception as e:  # noqa: BLE001 - an interpreted exception escaping descendant() for a plain list of names is itself the finding
+        bad = bad or ("<any>", f"raises {type(e).__name__}: {e}", ())
+    ctx.check(bad is None, "shell/descendant-is-child-per-segment", "twisted.python.filepath.AbstractFilePath.descendant",
+              f"descendant() does not apply child() once per segment starting from self: for segments {bad and bad[0]} it yields {bad and bad[1]} via {bad and bad[2]} "
+              f"(a segment bypasses FilePath.child's containment check)")
 
 
 def _s_path_only(ctx, S):
@@ -287,6 +351,8 @@ def _confined(m, mname):
             for e in ast.walk(n.optional_vars):
                 if isinstance(e, ast.Name):
                     defs.setdefault(e.id, []).append(n.context_expr)
+        elif isinstance(n, ast.Call) and isinstance(n.func, ast.Attribute) and isinstance(n.func.value, ast.Name) and n.func.attr in ("append", "add", "insert", "extend") and n.args:
+            defs.setdefault(n.func.value.id, []).append(n.args[-1])       # container filled element by element: each element is a definition
     helper = mname.startswith("_stat")   # private helpers receive an already confined FilePath (call sites checked below)
     ok_names = set(pr[1:2]) if helper else set()
 
@@ -308,13 +374,23 @@ def _confined(m, mname):
     def nm(d):
         return {x.id for x in ast.walk(d) if isinstance(x, ast.Name)}
 
+    def neutral(d):
+        """an empty container / constant initialisation says nothing about where the elements come from"""
+        return (isinstance(d, (ast.List, ast.Tuple, ast.Set)) and not d.elts) or (isinstance(d, ast.Dict) and not d.keys) or isinstance(d, ast.Constant) or \
+            (isinstance(d, ast.Call) and call_name(d) in ("list", "set", "dict", "tuple") and not d.args)
+
     # greatest fixpoint: drop a name as soon as one of its definitions is foreign, mentions a raw parameter, or mentions no confined name
     cand = set(defs) | ok_names
     changed = True
     while changed:
         changed = False
         for name in sorted(cand - ok_names):
-            for d in defs.get(name, []):
+            ds_ = [d for d in defs.get(name, []) if not neutral(d)]
+            if not ds_ and defs.get(name):
+                cand.discard(name)          # only ever bound to empty containers / constants: not a path
+                changed = True
+                continue
+            for d in ds_:
                 raw = (set(pr[1:]) & nm(d)) - set(defs)
                 if foreign(d) or not (is_path(d) or (nm(d) & cand and not raw)):
                     cand.discard(name)
@@ -525,6 +601,8 @@ def _s_body(ctx, S):
 
 
 def check(ctx):
+    normalise(ctx, {FTPM: ["_path", "_statNode", "_encodeName", "_isGlobbingExpression"], FPM: []},
+              scopes={FTPM: ["FTP", "FTPAnonymousShell", "FTPShell", "toSegments"], FPM: ["AbstractFilePath.descendant"]})
     run_sections(ctx, [("protocol", _s_protocol), ("working-directory", _s_cwd), ("toSegments", _s_tosegments), ("invalid-path", _s_invalid_path), ("_path", _s_path),
                        ("descendant", _s_descendant), ("_path-only", _s_path_only), ("shell-sinks", _s_sinks), ("shell-footprints", _s_footprints), ("body-entered", _s_body)])
 
@@ -570,5 +648,21 @@ SILENT = [
     Silent("rmdir-through-local-alias", _F, "        try:\n            os.rmdir(p.path)\n        except OSError as e:", "        rmdir = os.rmdir\n        try:\n            rmdir(p.path)\n        except OSError as e:"),
     Silent("dele-with-os-remove", _F, "        try:\n            p.remove()\n        except OSError as e:", "        try:\n            os.remove(p.path)\n        except OSError as e:"),
     Silent("mkd-with-os-makedirs", _F, "        try:\n            p.makedirs()\n        except OSError as e:", "        try:\n            os.makedirs(p.path)\n        except OSError as e:"),
+    Silent("descendant-with-explicit-iterator", FPM, "        for name in segments:\n            path = path.child(name)\n        return path",
+           "        pending = iter(segments)\n        while True:\n            try:\n                name = next(pending)\n            except StopIteration:\n                return path\n            path = path.child(name)"),
     Silent("cwd-copied-with-list", _F, "        segs = cwd[:]\n", "        segs = list(cwd)\n"),
+    Silent("toSegments-guard-clauses-and-temporaries", _F,
+           "    if path.startswith(\"/\"):\n        segs = []\n    else:\n        segs = cwd[:]\n\n    for s in path.split(\"/\"):\n        if s == \".\" or s == \"\":\n            continue\n        elif s == \"..\":\n            if segs:\n                segs.pop()\n            else:\n                raise InvalidPath(cwd, path)\n        elif \"\\0\" in s or \"/\" in s:\n            raise InvalidPath(cwd, path)\n        else:\n            segs.append(s)\n    return segs\n",
+           "    absolute = path.startswith(\"/\")\n    segs = [] if absolute else list(cwd)\n    components = path.split(\"/\")\n    for s in components:\n        if s in (\".\", \"\"):\n            continue\n        goesUp = s == \"..\"\n        if goesUp:\n            if not segs:\n                raise InvalidPath(cwd, path)\n            segs.pop()\n            continue\n        if \"\\0\" in s or \"/\" in s:\n            raise InvalidPath(cwd, path)\n        segs.append(s)\n    return segs\n"),
+    Silent("segments-through-private-helper", _F, "            newsegs = toSegments(self.workingDirectory, path)\n        except InvalidPath:\n            return defer.fail(FileNotFoundError(path))\n        return self.shell.removeFile(newsegs)",
+           "            newsegs = self._segmentsOf(path)\n        except InvalidPath:\n            return defer.fail(FileNotFoundError(path))\n        return self.shell.removeFile(newsegs)",
+           more=[(_F, "    def ftp_RNFR(self, fromName):", "    def _segmentsOf(self, path):\n        return toSegments(self.workingDirectory, path)\n\n    def ftp_RNFR(self, fromName):")]),
+    Silent("shell-operation-through-shared-helper", _F,
+           "        p = self._path(path)\n        if p.isfile():\n            # Win32 returns the wrong errno when rmdir is called on a file\n            # instead of a directory, so as we have the info here, let's fail\n            # early with a pertinent error\n            return defer.fail(IsNotADirectoryError(path))\n        try:\n            os.rmdir(p.path)\n        except OSError as e:\n            return errnoToFailure(e.errno, path)\n        except BaseException:\n            return defer.fail()\n        else:\n            return defer.succeed(None)\n",
+           "        target = self._path(path)\n        isFile = target.isfile()\n        if isFile:\n            return defer.fail(IsNotADirectoryError(path))\n        return self._attempt(os.rmdir, target, path)\n\n    def _attempt(self, operation, target, path):\n        try:\n            operation(target.path)\n        except OSError as e:\n            return errnoToFailure(e.errno, path)\n        except BaseException:\n            return defer.fail()\n        return defer.succeed(None)\n"),
+    Silent("root-in-a-temporary", _F, "        return self.filesystemRoot.descendant(path)", "        root = self.filesystemRoot\n        return root.descendant(path)"),
+    Silent("listing-built-by-a-loop", _F, "            fileEntries = [filePath.child(p) for p in entries]", "            fileEntries = []\n            for p in entries:\n                fileEntries.append(filePath.child(p))"),
+    Silent("cwd-callback-as-private-method", _F, "        def accessGranted(result):\n            self.workingDirectory = segments\n            return (REQ_FILE_ACTN_COMPLETED_OK,)\n\n        return self.shell.access(segments).addCallback(accessGranted)",
+           "        return self.shell.access(segments).addCallback(self._cwdGranted, segments)",
+           more=[(_F, "    def ftp_CDUP(self):", "    def _cwdGranted(self, result, segments):\n        self.workingDirectory = segments\n        return (REQ_FILE_ACTN_COMPLETED_OK,)\n\n    def ftp_CDUP(self):")]),
 ]
